@@ -22,7 +22,7 @@ def main():
     if errors:
         run.violation("table translator failed closed: " + "; ".join(errors), dict(kind="translator", errors=errors), False)
         return run.finish()
-    ok, log = run.build(["Proofs/C02/BeforeFirst.vo", "Proofs/C02/Complete.vo", "Model/SigCases.vo"], clean=(run.tier == "thorough"))
+    ok, log = run.build(["Proofs/C02/BeforeFirst.vo", "Proofs/C02/Complete.vo", "Proofs/C02/Timeline.vo", "Model/SigCases.vo"], clean=(run.tier == "thorough"))
     proofs_ok = ok and run.theorems()
     if not ok: run.proof_log = log[-2500:]
     run.witnesses()
@@ -34,9 +34,13 @@ def main():
     blocks, docs = [], {}
     s_fail = []        # (doc index, clause, detail)
     n_probe, n_sig_raise, n_changes, lens = 0, 0, 0, []
+    n_eqsets = 0
     for k in range(ndocs):
         g = docgen.Gen(rng, style_density=0.02, anim_density=(0.05 if k % 2 else 0.015), display_p=0.05, ruby_p=0.05, region_ref_p=0.3)
         d = g.doc(); docs[k] = d
+        if k % 5 == 2:
+            import c14 as _c14
+            n_eqsets += _c14.inject_equal_sets(rng, d)     # value-equal <set> steps on elements with different time bases
         try:
             st = ISD.significant_times(d); sig = list(st)
         except Exception as e:
@@ -118,12 +122,13 @@ def main():
                                             correspondence="Model/SigTimes.v sig vs ttconv.isd.ISD.significant_times",
                                             first_document=L.doc_lit(docs[m_bad[0]]) if m_bad else None), found_input=False)
     run.cov.update(evaluations=ndocs + n_probe, distinct_nontrivial=n_changes,
-                   rule="random documents with timed animation steps on elements and regions that start at non-zero offsets; "
+                   rule="random documents with timed animation steps on elements and regions that start at non-zero offsets (every 5th with "
+                        "value-equal set steps — same property, value, begin, end, shared object or equal copies — on 2-4 elements whose time bases differ); "
                         "significant_times compared with M; for every pair of consecutive significant times up to 5 probes strictly "
                         "between them (midpoint, 1/7 point, and the true change points computed by the harness from each element's own "
                         "interval), cached and uncached, must equal the snapshot at the earlier time. distinct_nontrivial = intervals at "
                         "whose end the snapshot really changes.",
-                   samples=[dict(document=L.doc_lit(docs[0])[:1200])], documents=ndocs, probes=n_probe,
+                   samples=[dict(document=L.doc_lit(docs[0])[:1200])], documents=ndocs, probes=n_probe, value_equal_set_steps=n_eqsets,
                    sig_times_per_document=dict(min=min(lens or [0]), max=max(lens or [0]), mean=round(sum(lens) / max(1, len(lens)), 1)),
                    documents_where_trigger_fires=len(trig), model_code_mismatches=len(m_bad), s_failures_on_code=len(s_fail))
     run.assumptions += ["snapshots (isd) are tied to the code under C01 with the same generator family",
